@@ -932,9 +932,55 @@ func oneFault(p *drv.Plan, w *drv.World, base *sim.SimDB, baseDigest uint64, for
 	}); v != nil {
 		return v
 	}
+	// Whatever state the store reopened to, it has to BE that state for whatever
+	// follows: in a third of the cases the application goes on with other
+	// writes, commits, restarts with the opposite index setting, and every read
+	// path must show exactly that (the same oracle as C05's mode nested, which
+	// found the stale-label defect repaired by 2b203ed).
+	goOn := func() *drv.Violation {
+		var ns []int
+		for _, q := range pos {
+			ns = append(ns, q.n)
+		}
+		r := drv.SubRand(p, "c17-other", s.ID, fmt.Sprint(ns))
+		if !w3.Clean() || !r.Chance(1, 3) || p.Mode == "legacy" {
+			// (not on databases written by the legacy library: removals there
+			// run into C16's listed finding - two legacy nodes of one creation
+			// version re-saved under one key - which is not C17's subject)
+			return nil
+		}
+		out.Probes["reopen.other-continuation"]++
+		var us []string
+		for k := range w3.Universe {
+			us = append(us, k)
+		}
+		sort.Strings(us)
+		var steps []drv.Step
+		id := 1 << 21
+		for i, n := 0, 1+r.Intn(3); i < n && len(us) > 0; i++ {
+			k := []byte(us[r.Intn(len(us))])
+			if r.Chance(1, 3) {
+				steps = append(steps, drv.Step{ID: id, Op: drv.OpRemove, K: k})
+			} else {
+				steps = append(steps, drv.Step{ID: id, Op: drv.OpSet, K: k, V: []byte(fmt.Sprintf("o%d.%d", s.ID, i))})
+			}
+			id++
+		}
+		f, c := !w3.Fast, r.Pick(0, 2, 1000)
+		steps = append(steps, drv.Step{ID: id, Op: drv.OpSave}, drv.Step{ID: id + 1, Op: drv.OpReopen, Fast: &f, Cache: &c})
+		for _, st := range steps {
+			if v := w3.Apply(st); v != nil {
+				return mkR("continuation-diverges", fmt.Sprintf("the store reopened to a legal state, but going on with other writes (%s) failed: %s", st.String(), v.Error()))
+			}
+		}
+		if v := w3.Guard("C17", "C17.reopen-old-or-new", api, func() *drv.Violation { return auditCrashState(w3) }); v != nil {
+			return mkR("continuation-diverges", fmt.Sprintf("the store reopened to a legal state, but after other writes, a commit and a restart with the other index setting: %s", v.Error()))
+		}
+		return nil
+	}
 	vOld := w3.Guard("C17", "C17.reopen-old-or-new", api, func() *drv.Violation { return auditCrashState(w3) })
 	if vOld == nil {
-		return nil
+		return goOn()
 	}
 	// the state after: apply the operation to the model
 	newM, newT := committedOnly(w2.M, w2.T)
@@ -956,7 +1002,7 @@ func oneFault(p *drv.Plan, w *drv.World, base *sim.SimDB, baseDigest uint64, for
 	w3.M, w3.T = newM, newT
 	vNew := w3.Guard("C17", "C17.reopen-old-or-new", api, func() *drv.Violation { return auditCrashState(w3) })
 	if vNew == nil {
-		return nil
+		return goOn()
 	}
 	if what, mid := intermediateState(w3, "C17", "C17.reopen-old-or-new", api, s.Op, oldM, oldT, newM, newT); mid {
 		return mkR("intermediate-version", "the failed operation left part of its work behind: "+what+"; every remaining version is intact, but it is neither the state before nor the state after")
